@@ -193,10 +193,16 @@ def run(ctx):
     sup = impl["support"]
 
     # ---- support search on the real code (public-API recomputation) — also the oracle for broken correspondences
-    known = {known_key(e): e for e in V.load_known("C05")}
+    known = {known_key(e): e for e in V.load_known("C05") if known_key(e) is not None}
+    known_class = {e["key"]["class"]: e for e in V.load_known("C05") if "class" in e.get("key", {})}
+
+    def class_of(f):
+        sig = (f.get("detail") or {}).get("signature") or {}
+        return known_class.get(sig.get("class")) if f["key"]["kind"] == "flash" else None
+
     new_fail = []
     for f in sup["failures"]:
-        e = known.get(key_of(f))
+        e = known.get(key_of(f)) or class_of(f)
         if e is not None:
             V.report_known(ctx, e)
         else:
@@ -208,7 +214,7 @@ def run(ctx):
         still = [f for f in kpnt["failures"]]
         known_status.append({"point": kpnt["point"], "still_fails": bool(still)})
         for f in still:
-            e2 = known.get(key_of(f))
+            e2 = known.get(key_of(f)) or class_of(f)
             if e2 is not None:
                 V.report_known(ctx, e2)
             else:
